@@ -11,7 +11,8 @@ pub struct C16;
 pub struct C16Case {
     /// 0: big values (value file largest), 1: many long keys (key file largest), 2: huge table (table file largest)
     pub shape: u8,
-    /// 0 flush, 1 sync_data, 2 sync_all
+    /// 0 flush, 1 sync_data, 2 sync_all (on the map); 3 sync_data, 4 sync_all on the database
+    /// object, with a second small map "zz_small" (vu64 keys, visited after the big one) open
     pub call: u8,
     /// RLIMIT_FSIZE in force during the call
     pub limit: u64,
@@ -127,6 +128,39 @@ fn model_of(kt: Kt, shape: u8) -> (Vec<Vec<u8>>, BTreeMap<Vec<u8>, Vec<u8>>) {
     (keys, m)
 }
 
+const SMALL: &str = "zz_small";
+
+fn small_updates(phase: u8) -> Vec<(Vec<u8>, Vec<u8>)> {
+    (0..3u64)
+        .map(|i| {
+            let n = 1000 + i * 17 + phase as u64 * 100000;
+            (crate::decoder::vu64_encode(n), format!("small-{phase}-{i}").into_bytes())
+        })
+        .collect()
+}
+
+fn small_model() -> (Vec<Vec<u8>>, BTreeMap<Vec<u8>, Vec<u8>>) {
+    let mut m = BTreeMap::new();
+    let mut keys = Vec::new();
+    for ph in 0..2u8 {
+        for (k, v) in small_updates(ph) {
+            keys.push(k.clone());
+            m.insert(k, v);
+        }
+    }
+    keys.push(crate::decoder::vu64_encode(7));
+    (keys, m)
+}
+
+fn small_params() -> Params {
+    Params {
+        val: BufP::PerMille(1000),
+        key: BufP::PerMille(1000),
+        htx: BufP::PerMille(1000),
+        buckets: Buckets::BucketsSize(8),
+    }
+}
+
 fn set_limit(l: Option<u64>) {
     let mut rl: libc::rlimit = unsafe { std::mem::zeroed() };
     unsafe {
@@ -139,6 +173,40 @@ fn set_limit(l: Option<u64>) {
     unsafe {
         libc::setrlimit(libc::RLIMIT_FSIZE, &rl);
     }
+}
+
+fn snapshot_small(dir: &std::path::Path, tag: &str) -> Result<(), String> {
+    let snap = dir.join(format!("snap-small-{tag}"));
+    let _ = std::fs::remove_dir_all(&snap);
+    std::fs::create_dir_all(&snap).map_err(|e| format!("mkdir: {e}"))?;
+    let files = crate::exec::read_files(dir, SMALL).map_err(|e| format!("read files: {e}"))?;
+    let names = crate::exec::file_names(SMALL);
+    for i in 0..3 {
+        std::fs::write(snap.join(&names[i]), &files[i]).map_err(|e| format!("write snap: {e}"))?;
+    }
+    let (keys, model) = small_model();
+    let d = crate::decoder::decode(Kt::Vu64, &files[0], &files[1], &files[2]);
+    if let Some(c) = d.header.first().or(d.structure.first()) {
+        return Err(format!("second map: decoder: {c}"));
+    }
+    if d.contents() != model {
+        return Err("second map: decoded contents differ from the model".into());
+    }
+    let req = VerifyReq {
+        dir: snap.to_string_lossy().to_string(),
+        maps: vec![DirMap {
+            name: SMALL.into(),
+            kt: Kt::Vu64,
+            params: small_params(),
+            keys: keys.iter().map(|k| hex(k)).collect(),
+        }],
+    };
+    let got = verify_dir(&req)?;
+    let _ = std::fs::remove_dir_all(&snap);
+    if got.maps[0] != digest_model(&keys, &model) {
+        return Err("second map: the copy opened with the crate shows other contents than the model".into());
+    }
+    Ok(())
 }
 
 fn snapshot_equals_model(dir: &std::path::Path, kt: Kt, shape: u8, tag: &str) -> Result<(), String> {
@@ -207,9 +275,18 @@ pub fn child_main(req_file: &str) -> i32 {
             }
             Ok(())
         };
+        let db_level = c.call >= 3;
+        let mut small = open_map(&db, SMALL, Kt::Vu64, &small_params()).map_err(|e| format!("open second map: {e}"))?;
         apply(&mut m, &a)?;
+        for (k, v) in small_updates(0) {
+            small.put(&k, &v).map_err(|e| format!("put (second map): {e}"))?;
+        }
         m.flush().map_err(|e| format!("baseline flush returned Err: {e}"))?;
+        small.flush().map_err(|e| format!("baseline flush (second map) returned Err: {e}"))?;
         apply(&mut m, &b)?;
+        for (k, v) in small_updates(1) {
+            small.put(&k, &v).map_err(|e| format!("put (second map): {e}"))?;
+        }
         let (keys, model) = model_of(c.kt, c.shape);
         if !req.dry {
             set_limit(Some(c.limit));
@@ -217,7 +294,9 @@ pub fn child_main(req_file: &str) -> i32 {
         let r = match c.call {
             0 => m.flush(),
             1 => m.sync_data(),
-            _ => m.sync_all(),
+            2 => m.sync_all(),
+            3 => db.sync_data(),
+            _ => db.sync_all(),
         };
         out.call_ok = r.is_ok();
         // (i) reads under the limit: Err is acceptable, a wrong value is not
@@ -242,6 +321,11 @@ pub fn child_main(req_file: &str) -> i32 {
             snapshot_equals_model(&dir, c.kt, c.shape, "ok").map_err(|e| {
                 format!("the call returned Ok under RLIMIT_FSIZE={} but the files on disk do not hold the current state: {e}", c.limit)
             })?;
+            if db_level {
+                snapshot_small(&dir, "ok").map_err(|e| {
+                    format!("the database-level call returned Ok under RLIMIT_FSIZE={} but the files on disk do not hold the current state: {e}", c.limit)
+                })?;
+            }
         }
         // (ii) limit lifted: every read equals the model
         set_limit(None);
@@ -269,10 +353,19 @@ pub fn child_main(req_file: &str) -> i32 {
             return Err("after the failed flush a full iteration differs from the model".into());
         }
         // (iii) the next flush succeeds and makes everything durable
+        let (skeys, smodel) = small_model();
+        for k in &skeys {
+            let v = small.get(k).map_err(|e| format!("after lifting the limit get (second map) returned Err: {e}"))?;
+            if v.as_ref() != smodel.get(k) {
+                return Err("after the failed sync (limit lifted) the second map's contents differ from the model".into());
+            }
+        }
         let r2 = match c.call {
             0 => m.flush(),
             1 => m.sync_data(),
-            _ => m.sync_all(),
+            2 => m.sync_all(),
+            3 => db.sync_data(),
+            _ => db.sync_all(),
         };
         out.recovered_flush_ok = r2.is_ok();
         if let Err(e) = r2 {
@@ -281,9 +374,15 @@ pub fn child_main(req_file: &str) -> i32 {
         snapshot_equals_model(&dir, c.kt, c.shape, "rec").map_err(|e| {
             format!("after the recovered flush the files on disk do not hold the current state: {e}")
         })?;
+        if db_level {
+            snapshot_small(&dir, "rec").map_err(|e| {
+                format!("after the recovered database-level sync the files on disk do not hold the current state: {e}")
+            })?;
+        }
         let f = crate::exec::read_files(&dir, "f").map_err(|e| format!("read: {e}"))?;
         out.sizes = [f[0].len() as u64, f[1].len() as u64, f[2].len() as u64];
         std::mem::forget(m);
+        std::mem::forget(small);
         std::mem::forget(db);
         Ok(())
     }));
@@ -381,7 +480,7 @@ fn run_c16(c: &C16Case, w: &WCtx) -> Result<Report, Failure> {
     let (o, dir) = run_child(c, false, w)?;
     let fin = (|| {
         if let Some(f) = &o.failure {
-            return Err(Failure::new("fault", None, format!("[shape {} call {} RLIMIT_FSIZE={}] {f}", c.shape, ["flush", "sync_data", "sync_all"][c.call as usize % 3], c.limit)));
+            return Err(Failure::new("fault", None, format!("[shape {} call {} RLIMIT_FSIZE={}] {f}", c.shape, ["flush", "sync_data", "sync_all", "db.sync_data", "db.sync_all"][c.call as usize % 5], c.limit)));
         }
         // the directory left behind by the process that exited without running destructors
         let (keys, model) = model_of(c.kt, c.shape);
@@ -441,12 +540,12 @@ fn run_c16(c: &C16Case, w: &WCtx) -> Result<Report, Failure> {
 }
 
 fn n_thresholds(tier: Tier) -> u64 {
-    tier.pick(100, 400)
+    tier.pick(60, 250)
 }
 
 fn case_of(tier: Tier, index: u64, w: &WCtx) -> Result<C16Case, Failure> {
     let nt = n_thresholds(tier);
-    let per_shape = nt * 3;
+    let per_shape = nt * 5;
     let shape = ((index / per_shape) % 3) as u8;
     let call = ((index % per_shape) / nt) as u8;
     let j = index % nt;
@@ -476,7 +575,7 @@ impl Prop for C16 {
         "fault_enumeration"
     }
     fn rule(&self) -> String {
-        "fault enumeration in a child process (SIGXFSZ ignored): three workload shapes so that each file is in turn the largest (values of 150-400 KB; 600 keys of ~1 KB; 65536-bucket table with few entries), a flushed baseline followed by buffered updates made with the limit lifted; then RLIMIT_FSIZE = T and flush / sync_data / sync_all; T ranges over the header offsets, every 128 KiB buffer-chunk boundary (-1, 0, +1, +1000) up to beyond the largest file, each file's end (-1, 0, +1) and half of it (quick: 100 thresholds per shape and call spread over that list, thorough: 400, i.e. the whole list). Oracle: Ok under the limit => the files on disk hold the model state (independent decode + copy opened with the crate); Err => (i) reads while the limit is in force may return Err but never a wrong value, (ii) after lifting the limit get of every key, len and a full iteration equal the model, (iii) the next flush/sync returns Ok and the files on disk hold the model state, also in the directory left behind when the process exits without running destructors (as by SIGKILL). evaluations = (shape, call, T, key type) cases. Non-trivial: T at which the call returned Err; distinct by (shape, call, T, key type)."
+        "fault enumeration in a child process (SIGXFSZ ignored): three workload shapes so that each file is in turn the largest (values of 150-400 KB; 600 keys of ~1 KB; 65536-bucket table with few entries), a flushed baseline followed by buffered updates made with the limit lifted; then RLIMIT_FSIZE = T and flush / sync_data / sync_all on the map, or sync_data / sync_all on the database object with a second small map (visited after the big one) open and updated; T ranges over the header offsets, every 128 KiB buffer-chunk boundary (-1, 0, +1, +1000) up to beyond the largest file, each file's end (-1, 0, +1) and half of it (quick: 60 thresholds per shape and call spread over that list, thorough: 250). Oracle: Ok under the limit => the files on disk hold the model state (independent decode + copy opened with the crate); Err => (i) reads while the limit is in force may return Err but never a wrong value, (ii) after lifting the limit get of every key, len and a full iteration equal the model, (iii) the next flush/sync returns Ok and the files on disk hold the model state, also in the directory left behind when the process exits without running destructors (as by SIGKILL). evaluations = (shape, call, T, key type) cases. Non-trivial: T at which the call returned Err; distinct by (shape, call, T, key type)."
             .to_string()
     }
     fn assumptions(&self) -> Vec<String> {
@@ -486,7 +585,7 @@ impl Prop for C16 {
         ]
     }
     fn n_cases(&self, tier: Tier) -> u64 {
-        n_thresholds(tier) * 3 * 3
+        n_thresholds(tier) * 3 * 5
     }
     fn timeout_s(&self, _tier: Tier) -> u64 {
         150
